@@ -217,6 +217,9 @@ def responder_send_failures(ctx):
     import re
     for line, li, lm in zip(lines, impl, model):
         rep = {"cmd": "respond", "line": line[:30000], "impl": li[:1500], "model": lm[:1500]}
+        if li.startswith("UNAVAILABLE"):
+            ctx.violation("tie", "Responder::new / add_*_request / send_responses no longer have the signatures the harness drives "
+                          "(harness built without the responder command): the send-failure correspondence cannot run", rep); break
         if not li.startswith("OK") :
             ctx.violation("property", "Responder::send_responses did not return normally with an unsendable destination in the batch: " + li[:60], rep); continue
         bi = re.findall(r"\[(.*?) R=(.*?)\]", li); bm = re.findall(r"\[(.*?) R=(.*?)\]", lm)
